@@ -10,5 +10,7 @@ m={'id':sid,'property':prop,'breaks':prop,'needs_to_manifest':needs,'base_commit
         'python3 run.py check %s --tier quick'%prop,'existing test suite passes with the patch (verified by the authoring sub-agent)','git -C /repo checkout -- .'],
  'detected_by':det,'origin':'independent sub-agent given only the property text and a scratch worktree'}
 if first: m['first_run']=first
+import os
+if os.environ.get('DETECT'): m['detect_with']=os.environ['DETECT']
 json.dump(m,open(d+'/meta.json','w'),indent=1)
 P
